@@ -1,10 +1,13 @@
 #!/bin/bash
 # usage: bin_lane.sh <lane-dir> <seed|-> <check-id> [extra check args]
 # Runs one check on a scratch worktree of /repo (made with `git -C /repo worktree add --detach <lane-dir> HEAD`) with its own work
-# directory, so that experiments do not disturb /repo or /verif/.work.  <seed> = a directory name under /verif/seeded, or - for none.
+# directory, so that experiments do not disturb /repo or /verif/.work.  <seed> = a directory name under /verif/seeded, an absolute path of a patch, or - for none.
 LANE="$1"; SEED="$2"; shift 2
 git -C "$LANE" checkout -q -- . || exit 9
-if [ "$SEED" != "-" ]; then git -C "$LANE" apply "/verif/seeded/$SEED/patch.diff" || exit 9; fi
+if [ "$SEED" != "-" ]; then
+  case "$SEED" in /*) P="$SEED";; *) P="/verif/seeded/$SEED/patch.diff";; esac
+  git -C "$LANE" apply "$P" || exit 9
+fi
 VERIF_REPO="$LANE" VERIF_WORK="${LANE}_work" /verif/check "$@"; RC=$?
 git -C "$LANE" checkout -q -- .
 echo "lane rc=$RC"
